@@ -26,6 +26,10 @@ INSTANCES = {
     "text": (dict(Names={"a"}, MaxText=2, MaxIgn=1, TextKinds={"Text", "CData"}, IgnKinds={"Comment", "PI", "Decl", "DocType"}),
              {"quick": dict(AttrLists="{<<>>}", OccBudget="<<2, 1>>"),
               "thorough": dict(AttrLists="{<<>>}", OccBudget="<<3, 1>>")}),
+    # all dimensions at once within a small bound: attributes, text, both forms, two documents
+    "mixed": (dict(Names={"a"}, MaxText=1, TextKinds={"Text", "CData"}),
+              {"quick": dict(AttrLists='{<<>>, <<"p">>}', OccBudget="<<3, 2>>"),
+               "thorough": dict(AttrLists='{<<>>, <<"p">>, <<"q", "p">>}', OccBudget="<<3, 2>>")}),
     # names whose identifiers / struct names collide: the inputs on which internal order is observable
     "names": (dict(Names={"Foo", "foo"}, RootName="r"),
               {"quick": dict(AttrLists="{<<>>}", OccBudget="<<4, 3>>"),
